@@ -145,6 +145,7 @@ func checkC01(c *Ctx) {
 		// text that ends its comment or string too early leaves code the formatter rejects: generation fails
 		checkContextKinds(c, "C01.R19.context-kind", ev, checkExampleIsJSON(c, "C01.R19.example-json", gen))
 		checkIdentifierHeads(c, "C01.R20.identifier-heads", ev)
+		checkExtraSchemaImports(c, "C01.R16.extra-schema-imports", gen)
 	}
 	checkVersionedImports(c, "C01.R14.versioned-imports", gen)
 
